@@ -17,7 +17,7 @@ PROP = dict(
         dict(module="RedisPeers", cfg="MC_RedisPeers_codec.cfg"),
         dict(module="RedisPeers", cfg="MC_RedisPeers_codec8.cfg", tiers=("thorough",))],
     trace=dict(module="RedisPeersTrace", cfg="RedisPeersTrace.cfg"),
-    chunk_lines=2500,
+    chunk_lines=2500, max_rejections=10,
     nontrivial=_nontrivial,
     min_nontrivial=10,
     rule="seeded histories of 25-55 UpdatePeer/GetPeers/clock-advance calls on a real RedisStore (mock clock) against an "
